@@ -7,7 +7,8 @@ queries, every fitness, covered verdict and coverage value returned for a chromo
 recomputed from scratch on the chromosome's current tests, and querying never fails for a registered function.
 
 Histories are lists of `Op` run by `step` from the empty world (any number of test-case and suite
-chromosomes, suite members included).  `outOk` says: the output of a query is *equal* to `scratch`, the value
+chromosomes, suite members included).  Suites hold their member chromosomes as OBJECTS (`Suite.objs`, `Suite.order`):
+the same object may sit at several positions of a suite (`addAlias`, `setAlias`); `clone` and the splices copy.  `outOk` says: the output of a query is *equal* to `scratch`, the value
 recomputed from the current contents (`expected`: a value, never `KeyError`; `StatisticsError` exactly when
 `get_coverage` is asked with no coverage function).  `Admissible` lists the hypotheses, checked along the run:
 * `MutEff.honest`: a test-factory sub-step that returned `False` left the statements alone (the test
@@ -71,19 +72,53 @@ theorem mutate_flags_every_content_change (t : Tc) (e : MutEff) (hh : e.honest t
     (hc : (t.mutate Ver.repo e).changed = false) : (t.mutate Ver.repo e).content = t.content :=
   (tcMutate_content rfl t e hh hc).1
 
-/-- `_run_test_suite_chromosome` returns the results of the members' current statements and leaves every
-member unchanged, executed and with a cache that is fresh (invalidated when it was re-executed) -/
-theorem suite_run_is_current (S : Sem Content) (s : Suite) (hs : ∀ t ∈ s.tests, TcOK S t) :
-    s.run.2 = s.tests.map (·.content) ∧ ∀ t ∈ s.run.1.tests, TcOK S t ∧ t.changed = false ∧ t.result = some t.content := by
-  refine ⟨(suLaws S).run_val s hs, ?_⟩
-  intro t' ht'
-  simp only [Suite.run, List.mem_map] at ht'
-  obtain ⟨t, ht, e⟩ := ht'
-  subst e
-  refine ⟨(runMember_spec t (hs t ht)).1, ?_⟩
-  have hg := (hs t ht).1
-  obtain ⟨c, ch, r, ca⟩ := t
-  cases ch <;> cases r <;> simp_all [runMember, TcGood]
+/-- **freshness of a suite run, aliased suites included**: `_run_test_suite_chromosome` returns, position by
+position, the result of executing THAT position's current statements — also when one chromosome object sits at
+several positions (it is flagged at each of them, every flagged position takes the next result of the iterator,
+nothing shifts and the iterator never runs dry); no statements change, and every member object is left with a
+stored result and caches that are current -/
+theorem suite_run_is_current (S : Sem Content) (s : Suite) (hs : ∀ t ∈ s.objs, TcOK S t) :
+    s.run.2 = s.order.map (fun i => (objAt s.objs i).content) ∧ s.run.1.order = s.order ∧
+    (∀ i, (objAt s.run.1.objs i).content = (objAt s.objs i).content) ∧ ∀ t ∈ s.run.1.objs, TcOK S t := by
+  obtain ⟨st', e, h1, h2⟩ := suRun_spec s hs
+  rw [e]
+  exact ⟨by simp [contents, Suite.members], rfl, h2, h1⟩
+
+/-- the hand-out loop of `_run_test_suite_chromosome` on its own: given the snapshot flags and the results of the
+flagged positions, position `k` receives the result of the test at position `k` -/
+theorem suite_run_hands_each_position_its_own_result (S : Sem Content) (st : List Tc) (order : List Nat)
+    (hs : ∀ t ∈ st, TcOK S t) :
+    ∃ st', handOut st (snapshot st order) (pendingResults st (snapshot st order)) =
+      some (st', order.map fun i => (objAt st i).content) := by
+  obtain ⟨st', e, _⟩ := handOut_spec (S := S) (snapshot st order) st _ hs rfl (by
+    intro p hp hf
+    simp only [snapshot, List.mem_map] at hp
+    obtain ⟨i, _, e⟩ := hp
+    subst e
+    exact hf)
+  exact ⟨st', by rw [e]; simp [snapshot, List.map_map, Function.comp_def]⟩
+
+/-- NOT the code (`_cex` only): the hand-out loop with the needs-execution test evaluated again at hand-out time
+instead of taken from the snapshot -/
+def handOutReeval : List Tc → List Nat → List Content → Option (List Tc × List Content)
+  | st, [], _ => some (st, [])
+  | st, i :: ps, it =>
+    if needsExec (objAt st i) then
+      match it with
+      | r :: it' => (handOutReeval (st.set i ((objAt st i).executed r)) ps it').map fun p => (p.1, r :: p.2)
+      | [] => none
+    else
+      match (objAt st i).result with
+      | some r => (handOutReeval st ps it).map fun p => (p.1, r :: p.2)
+      | none => none
+
+/-- why the flags must be the snapshot's: suite `[t, t, u]` (the same object twice, then another new test) —
+re-evaluated flags skip the second occurrence of `t` and hand `u` the result of `t`; the snapshot hands `u` its own -/
+theorem reevaluated_flags_shift_results_cex :
+    let st := [Tc.new 1 [], Tc.new 2 []]
+    (handOutReeval st [0, 0, 1] (pendingResults st (snapshot st [0, 0, 1]))).map (·.2) = some [1, 1, 1] ∧
+    (handOut st (snapshot st [0, 0, 1]) (pendingResults st (snapshot st [0, 0, 1]))).map (·.2) = some [1, 1, 2] := by
+  decide
 
 /-- `_compute_fitness` also fills the is-covered dict: the verdict it infers from the value (`math.isclose(v, 0.0)`,
 default tolerances) is the verdict `compute_is_covered` returns — for every value, however small; so
@@ -100,10 +135,12 @@ theorem abs_tol_verdict_cex (tol : Nat) (h : 0 < tol) : ∃ v, v ≠ 0 ∧ isClo
 /-- `splice_test_suite_chromosomes` flags the parent for every pair of positions and every other parent — also
 when the tail `other[position2:]` is empty and the parent is only truncated -/
 theorem suite_splice_always_flags (s : Suite) (o : List Tc) (p1 p2 : Nat) :
-    (s.splice o p1 p2).changed = true ∧ (s.splice o p1 p2).tests = s.tests.take p1 ++ o.drop p2 := ⟨rfl, rfl⟩
+    (s.splice o p1 p2).changed = true ∧ (s.splice o p1 p2).objs = s.objs ++ o.drop p2 ∧
+    (s.splice o p1 p2).order = s.order.take p1 ++ (List.range (o.drop p2).length).map (· + s.objs.length) :=
+  ⟨rfl, rfl, rfl⟩
 
 /-- … and it has to: an empty tail (`position2 = size(other)`) with `position1 < size(parent)` changes the tests -/
-example : ((Suite.splice ⟨[Tc.new 1 [], Tc.new 2 []], false, {}⟩ [Tc.new 3 []] 1 1).tests.map (·.content)) = [1] := by
+example : ((Suite.splice ⟨[Tc.new 1 [], Tc.new 2 []], [0, 1], false, {}⟩ [Tc.new 3 []] 1 1).members.map (·.content)) = [1] := by
   decide
 
 /-! ## decidability of the history predicates (for the concrete examples and counterexamples) -/
@@ -158,6 +195,25 @@ def sampleHistory : List Op :=
 example : Admissible stdSems Ver.repo true {} sampleHistory := by decide
 example : Admissible stdSems Ver.fixed false {} sampleHistory := by decide
 example : AllOk stdSems Ver.repo {} sampleHistory := by decide
+
+/-- aliased suites: the same object twice in a suite (`addAlias`, `setAlias`), mutated through one position and
+seen through the other, a new test appended behind the second occurrence (all three pending at once), member
+queries through both positions, clone (which un-shares) and a mutation of the clone only -/
+def aliasHistory : List Op :=
+  [.newTc 1 [2], .newTc 5 [], .newSuite, .addTest 0 0, .addAlias 0 0, .addTest 0 1, .addFit (.su 0) 1,
+   .addCov (.su 0) 3, .query (.su 0) (.fitnessFor 1), .query (.mem 0 1) (.fitnessFor 2),
+   .mutateSuite 0 ⟨[some (changeTo 7), none, none], [(4, [0])]⟩, .query (.su 0) .fitness, .query (.su 0) .coverage,
+   .query (.mem 0 0) (.fitnessFor 2), .query (.mem 0 1) (.isCovered 2), .query (.mem 0 3) .fitness,
+   .mutateSuite 0 ⟨[some (changeTo 8), some (changeTo 9), none, some (changeTo 3)], []⟩, .query (.su 0) (.isCovered 1),
+   .setAlias 0 2 3, .query (.su 0) (.fitnessFor 1), .cloneSuite 0 1, .mutateSuite 1 ⟨[some (changeTo 6)], []⟩,
+   .query (.su 1) .fitness, .query (.su 0) .fitness, .delTest 0 0, .query (.su 0) (.coverageFor 3),
+   .crossSuite 0 1 1 2, .query (.su 0) .fitness]
+
+example : Admissible stdSems Ver.repo true {} aliasHistory := by decide
+example : AllOk stdSems Ver.repo {} aliasHistory := by decide
+/-- after the first mutation both positions of the shared object show the new statements -/
+example : ((runOps stdSems Ver.repo {} (aliasHistory.take 11)).1.suites.map fun s => s.members.map (·.content))
+    = [[7, 7, 5, 4]] := by decide
 
 /-- fitness values of one unit (`2^-60`, not zero): fitness first, then the verdict, and the other way round -/
 def tinyHistory : List Op :=
